@@ -25,14 +25,21 @@ def run(res, only=None):
     cases = os.path.join(core.WORK, res.prop, "cases.out")
     res.add_tlc(core.run_tlc("MC_C01", res.tier, cases, workers=8))
     core.replay_bin(res, "lane", cases, cfgs, expect_ops=EXPECT_OPS)
+    # code -> spec: the same operations on RANDOM bit patterns, logged by `rec float` and judged by TLC (Trace_Lanes / IeeeW)
+    rec_cfgs = [c for c in ("sse2", "scalar", "coresimd", "fma", "libm", "sse2-rel") if c in cfgs]
+    core.record_and_validate(res, "float", rec_cfgs, draws=2 if res.tier == "quick" else 40,
+                             chunks=2 if res.tier == "quick" else 8, expect_kinds=("f1", "f2", "f3", "fc", "fr"))
     res.rule = ("TLC enumerates call/return states over the lattice F1 (ties, 2^22..2^24, 2^31, 2^63, "
                 "subnormals, extremes, +-0, +-inf, NaN); one case = one operation on 4-lane operand vectors; "
                 "each is replayed in 4 lane rotations on 7 vector types through every spelling. "
-                "non-trivial = some operand lane is a finite value other than +-1.")
+                "non-trivial = some operand lane is a finite value other than +-1.  Code -> spec: every operation on random bit patterns "
+                "(uniform bits, moderate exponents, quarter-integers, subnormals, 2^23/2^52/2^31/2^63 neighbourhoods, near-overflow; "
+                "partners with equal exponent, opposite sign, neighbours, small multiples) recorded per build (2 draws x 7 types in quick, "
+                "40 in thorough) and judged lane by lane by TLC with the arbitrary-precision model IeeeW (Trace_Lanes.tla).")
     res.assumptions = ["harness projection fl.rs (bits <-> (sign, odd mantissa, exponent)) is exact (self-tested at start-up)",
                        "NEON/wasm32 sources cannot run here",
                        "lanes whose exact result needs more than 31-bit integers are not predicted (counted as skipped)"]
 
 
 def replay(res, path, only=None):
-    return core.generic_replay(res, path, "lane")
+    return core.replay_dispatch(res, path, "lane")
